@@ -1,7 +1,7 @@
 (* C05 — deciding obligations. Statements only, closed by the lemmas proved in Circ/*Proofs.v. *)
 From Coq Require Import ZArith List Bool Permutation.
 From VF Require Import Circ.Moments Circ.MomentCalls Circ.Placement Circ.Insert Circ.BatchEdit Circ.History
-  Circ.MomentsProofs Circ.InsertProofs Circ.PlacementProofs Circ.CacheProofs Circ.BatchProofs Circ.OrderProofs Circ.TotalProofs Circ.EquivProofs Circ.HistoryProofs.
+  Circ.MomentsProofs Circ.InsertProofs Circ.PlacementProofs Circ.CacheProofs Circ.BatchProofs Circ.OrderProofs Circ.TotalProofs Circ.EquivProofs Circ.HistoryProofs Circ.ReturnIndexProofs.
 Import ListNotations.
 Open Scope Z_scope.
 
@@ -239,6 +239,45 @@ Theorem C05_order_preserved_constructor : forall its,
 Proof. exact construct_order. Qed.
 Print Assumptions C05_order_preserved_constructor.
 
+(* the returned index ("the insertion index that will place operations just after the operations that were inserted
+   by this method"), every strategy, any index, any tree, cached or not: the returned index z is not in front of the
+   insertion point k, and the moments from z on are, unchanged, the moments that stood from some j >= k on before the
+   call: nothing the call inserted or touched lies at or behind z, so whatever is inserted at z afterwards is placed
+   against (C05_order_preserved_single) a prefix that holds every inserted operation *)
+Theorem C05_insert_returns_index_behind_inserted : forall c i its s c' z,
+  cache_ok c -> insert c i its s = (c', inl z) ->
+  let k := clamp_index i (length (moms c)) in
+  Z.of_nat k <= z /\ exists j, (k <= j)%nat /\ skipn (Z.to_nat z) (moms c') = skipn j (moms c).
+Proof. exact insert_returns_behind. Qed.
+Print Assumptions C05_insert_returns_index_behind_inserted.
+
+(* ... under LATEST it is moreover not past the end of the circuit *)
+Theorem C05_latest_returns_index_behind_inserted : forall c i its c' z,
+  insert c i its LATEST = (c', inl z) ->
+  let k := clamp_index i (length (moms c)) in
+  Z.of_nat k <= z <= Z.of_nat (length (moms c')) /\
+  exists j, (k <= j)%nat /\ skipn (Z.to_nat z) (moms c') = skipn j (moms c).
+Proof. exact insert_latest_returns_behind. Qed.
+Print Assumptions C05_latest_returns_index_behind_inserted.
+
+(* ... in counts: the first z moments hold what stood in the first j moments plus every inserted operation *)
+Theorem C05_inserted_before_returned_index : forall u c i its s c' z,
+  cache_ok c -> insert c i its s = (c', inl z) ->
+  exists j, (clamp_index i (length (moms c)) <= j)%nat /\
+    ccnt u (firstn (Z.to_nat z) (moms c')) = (ccnt u (firstn j (moms c)) + icnt u its)%nat /\
+    ccnt u (skipn (Z.to_nat z) (moms c')) = ccnt u (skipn j (moms c)).
+Proof. exact insert_inserted_before_returned. Qed.
+Print Assumptions C05_inserted_before_returned_index.
+
+(* ... and after any history *)
+Theorem C05_insert_returns_index_behind_inserted_in_history : forall h i its s c' z,
+  insert (run empty_circuit h) i its s = (c', inl z) ->
+  let c := run empty_circuit h in
+  let k := clamp_index i (length (moms c)) in
+  Z.of_nat k <= z /\ exists j, (k <= j)%nat /\ skipn (Z.to_nat z) (moms c') = skipn j (moms c).
+Proof. exact history_insert_returns_behind. Qed.
+Print Assumptions C05_insert_returns_index_behind_inserted_in_history.
+
 (* the order clause is refuted for two calls (open defects of /repo, known findings order:concat and
    order:frontier); batch_insert was a third until fix b5fcbdd, see batch_insert_repaired_example *)
 Theorem C05_concat_ragged_order_refuted :
@@ -282,4 +321,14 @@ Proof.
   - repeat constructor; simpl; intuition discriminate.
   - vm_compute. tauto.
   - vm_compute. reflexivity.
+Qed.
+
+(* the hypotheses of C05_insert_returns_index_behind_inserted are satisfiable, with a tree whose operations conflict:
+   LATEST insert of two operations on qubit 0 between [X(0)] and [X(0) H(1)] [H(1)] returns 3 *)
+Example C05_returned_index_example :
+  let c := from_moments [[mkop 1 [0] [] [] [] true]; [mkop 2 [0] [] [] [] true; mkop 3 [1] [] [] [] true]; [mkop 4 [1] [] [] [] true]] in
+  let its := [IOp (mkop 5 [0] [] [] [] true); IOp (mkop 6 [0] [] [] [] true)] in
+  cache_ok c /\ exists c', insert c 1 its LATEST = (c', inl 3) /\ uid_moms (moms c') = [[1]; [5]; [6]; [2; 3]; [4]].
+Proof.
+  cbv zeta. split; [intros p Hp; discriminate|]. eexists. split; vm_compute; reflexivity.
 Qed.
